@@ -398,8 +398,16 @@ func exploreOne(sc *Scenario, opt Options, res *Result, failKeys map[string]*Fai
 				// re-run verbosely for the log; must reproduce identically
 				y := Exec(sc, choicesOf(x.trace), true, newRun(sc))
 				if y.fail == nil || y.fail.Key != f.Key {
-					fmt.Fprintf(os.Stderr, "INFRA: failure did not reproduce: scenario=%s choices=%v first=%q second=%v\n", sc.Name, choicesOf(x.trace), f.Key, y.fail)
-					os.Exit(2)
+					// The same choice sequence gave a different result the second time: the code
+					// under test carries state from one execution to the next (the harness owns
+					// every other source of nondeterminism).  The failure was observed on the real
+					// code, so it is reported; the replay may or may not show it again.
+					second := "no failure"
+					if y.fail != nil {
+						second = y.fail.Key
+					}
+					f.Msg += fmt.Sprintf(" [UNSTABLE: re-executing the same choices gave %q - behaviour depends on state carried over from earlier executions in the same process]", second)
+					f.Key += ":unstable"
 				}
 				f.Scenario = sc.Name
 				f.Choices = choicesOf(x.trace)
